@@ -1355,6 +1355,7 @@ fn run_witness(args: &[String]) -> i32 {
         "digest_name" => pkgsrc::digest::Digest::from_str(&g("name")).map(|d| d.to_string()).unwrap_or_else(|_| "unsupported".into()),
         "pkgpath" => more::real_pkgpath(&g("path")),
         "depend" => more::real_depend(&g("depend")),
+        "meta_getters" => more::meta_dump(g("entry").parse().unwrap_or(0), &g("text")),
         "meta_table" => more::real_meta_table(),
         "meta_valid_consistency" => more::valid_consistency(g("mask").parse().unwrap_or(0)),
         "meta_is_valid" => more::real_is_valid(g("mask").parse().unwrap_or(0)).to_string(),
